@@ -9,9 +9,18 @@ statement. The order of the two calls in `validateTileMatrixSet` (which decides 
 namespace Texel.C14
 open Texel.QT
 
-/-- square matrix and tiles, `ID` is the decimal text of the key, no variable widths -/
+/-- square matrix and tiles, the tile width a power of two, `ID` is the decimal text of the key, no variable widths -/
 def LocalOK (tm : TM) : Prop :=
-  tm.mh = tm.mw ∧ tm.th = tm.tw ∧ atoi tm.idText = some tm.id ∧ tm.nvar = 0
+  tm.mh = tm.mw ∧ tm.th = tm.tw ∧ (∃ k, tm.tw = 2 ^ k) ∧ atoi tm.idText = some tm.id ∧ tm.nvar = 0
+
+/-- the first matrix has id 0 and is a single tile ("consecutive integer ids from 0") -/
+def FirstOK (tm : TM) : Prop := tm.id = 0 ∧ tm.mw = 1
+
+theorem isPow2_iff (n : Nat) : isPow2 n = true ↔ ∃ k, n = 2 ^ k := by
+  unfold isPow2
+  constructor
+  · intro h; exact ⟨n.log2, (by simpa using h : 2 ^ n.log2 = n).symm⟩
+  · rintro ⟨k, rfl⟩; simp [Nat.log2_two_pow]
 
 /-- consecutive ids, one common origin and corner, same tile size, every matrix exactly doubling the previous one, cell size halving
 (within the code's tolerance 1.99..2.01) -/
@@ -21,7 +30,7 @@ def PairOK (prev tm : TM) : Prop :=
 /-- a true quadtree: every matrix is locally fine and every two consecutive ones are related as above -/
 def TrueQuadTreeFrom : Option TM → List TM → Prop
   | _, [] => True
-  | prev, tm :: rest => LocalOK tm ∧ (match prev with | none => True | some p => PairOK p tm) ∧ TrueQuadTreeFrom (some tm) rest
+  | prev, tm :: rest => LocalOK tm ∧ (match prev with | none => FirstOK tm | some p => PairOK p tm) ∧ TrueQuadTreeFrom (some tm) rest
 
 def TrueQuadTree (tms : List TM) : Prop := TrueQuadTreeFrom none tms
 
@@ -35,17 +44,30 @@ theorem localErr_none_iff (tm : TM) : localErr tm = none ↔ LocalOK tm := by
       · cases h
       · split at h
         · cases h
-        · rename_i k hk
-          split at h
+        · split at h
           · cases h
-          · split at h
+          · rename_i k hk
+            split at h
             · cases h
-            · rename_i h1 h2 h3 h4
-              refine ⟨by omega, by omega, ?_, by omega⟩
-              rw [hk]; congr 1; omega
-  · rintro ⟨h1, h2, h3, h4⟩
-    rw [if_neg (by omega), if_neg (by omega), h3]
-    simp [h4]
+            · split at h
+              · cases h
+              · refine ⟨by omega, by omega, (isPow2_iff _).1 (by simp_all), ?_, by omega⟩
+                rw [hk]; congr 1; omega
+  · rintro ⟨h1, h2, h3, h4, h5⟩
+    rw [if_neg (by omega), if_neg (by omega), if_neg (by simp [(isPow2_iff _).2 h3]), h4]
+    simp [h5]
+
+theorem firstErr_none_iff (tm : TM) : firstErr tm = none ↔ FirstOK tm := by
+  unfold firstErr FirstOK
+  constructor
+  · intro h
+    split at h
+    · cases h
+    · split at h
+      · cases h
+      · constructor <;> omega
+  · rintro ⟨h1, h2⟩
+    rw [if_neg (by omega), if_neg (by omega)]
 
 theorem pairErr_none_iff (prev tm : TM) : pairErr prev tm = none ↔ PairOK prev tm := by
   unfold pairErr PairOK
@@ -90,8 +112,16 @@ theorem isQuadTreeFrom_none_iff (prev : Option TM) (tms : List TM) : isQuadTreeF
       cases prev with
       | none =>
         simp only
-        rw [ih]
-        exact ⟨fun h => ⟨hloc, trivial, h⟩, fun h => h.2.2⟩
+        cases hf : firstErr tm with
+        | some e =>
+          simp only [reduceCtorEq, false_iff]
+          intro h
+          have := (firstErr_none_iff tm).2 h.2.1
+          rw [hf] at this; cases this
+        | none =>
+          simp only
+          rw [ih]
+          exact ⟨fun h => ⟨hloc, (firstErr_none_iff tm).1 hf, h⟩, fun h => h.2.2⟩
       | some p =>
         simp only
         cases hp : pairErr p tm with
@@ -119,11 +149,62 @@ theorem C14_doubling (prev tm : TM) (h : PairOK prev tm) (hl : LocalOK tm) (hp :
   obtain ⟨_, _, _, _, _, h6, _⟩ := h
   rw [← hl.1, ← hp.1]; exact h6
 
+/-- below an accepted matrix `p`, the `i`-th following matrix has id `p.id + i + 1`, `2^(i+1)` times its width, and its tile width -/
+theorem from_shape (p : TM) (rest : List TM) (h : TrueQuadTreeFrom (some p) rest) (hp : LocalOK p) :
+    ∀ i (hi : i < rest.length), rest[i].id = p.id + (i + 1 : Nat) ∧ rest[i].mw = 2 ^ (i + 1) * p.mw ∧ rest[i].tw = p.tw := by
+  induction rest generalizing p with
+  | nil => intro i hi; simp at hi
+  | cons tm rest ih =>
+    obtain ⟨hl, hpair, hrest⟩ := h
+    have hmw := C14_doubling p tm hpair hl hp
+    have htw : tm.tw = p.tw := by rw [← hl.2.1, ← hp.2.1]; exact hpair.2.2.2.2.1
+    intro i hi
+    cases i with
+    | zero => exact ⟨by simpa using hpair.1, by simpa using hmw, htw⟩
+    | succ j =>
+      obtain ⟨a, b, c⟩ := ih tm hrest hl j (by simpa using hi)
+      refine ⟨?_, ?_, ?_⟩
+      · simp only [List.getElem_cons_succ]; rw [a, hpair.1]; push_cast; omega
+      · simp only [List.getElem_cons_succ]; rw [b, hmw]; have e : 2 ^ (j + 1 + 1) = 2 ^ (j + 1) * 2 := Nat.pow_succ ..; rw [e, Nat.mul_assoc]
+      · simp only [List.getElem_cons_succ]; rw [c, htw]
+
+/-- **C14 (pixel size)**: in an accepted set the `i`-th matrix has id `i` and `2^i` tiles of the first matrix's (power of two) width on each
+axis, so the extent holds exactly `2^(i + log₂ tileWidth + 4)` pixels of 1/16 cell on each axis: the level `snap` and `pointindex`
+use for tile matrix `i` (`i + log₂ tileWidth + log₂ 16`) has pixels of exactly the cell size of `i` divided by 16 -/
+theorem C14_pixel_count (tms : List TM) (h : isQuadTree tms = none) (i : Nat) (hi : i < tms.length) :
+    tms[i].id = (i : Int) ∧ tms[i].mw = 2 ^ i ∧ tms[i].tw = (tms[0]'(by omega)).tw ∧
+    tms[i].mw * tms[i].tw * 16 = 2 ^ (i + (tms[0]'(by omega)).tw.log2 + 4) := by
+  rw [C14_iff] at h
+  cases tms with
+  | nil => simp at hi
+  | cons t0 rest =>
+    obtain ⟨hl, hf, hrest⟩ := h
+    obtain ⟨k, hk⟩ := hl.2.2.1
+    have key : ∀ j (hj : j < (t0 :: rest).length), (t0 :: rest)[j].id = (j : Int) ∧ (t0 :: rest)[j].mw = 2 ^ j ∧ (t0 :: rest)[j].tw = t0.tw := by
+      intro j hj
+      cases j with
+      | zero => exact ⟨by simpa using hf.1, by simpa using hf.2, rfl⟩
+      | succ m =>
+        obtain ⟨a, b, c⟩ := from_shape t0 rest hrest hl m (by simpa using hj)
+        refine ⟨?_, ?_, ?_⟩
+        · simp only [List.getElem_cons_succ]; rw [a, hf.1]; push_cast; omega
+        · simp only [List.getElem_cons_succ]; rw [b, hf.2]; simp
+        · simp only [List.getElem_cons_succ]; exact c
+    obtain ⟨a, b, c⟩ := key i hi
+    refine ⟨a, b, c, ?_⟩
+    rw [b, c]
+    simp only [List.getElem_cons_zero]
+    rw [hk, Nat.log2_two_pow, Nat.pow_add, Nat.pow_add]
+
 -- non-vacuity: a two-level quadtree is accepted; widening the second matrix by one is rejected by check 10
 def tm0 : TM := ⟨0, "0", 1, 1, 256, 256, 0, (0, 1), (0, 1), 0, 3440640, 1000⟩
 def tm1 : TM := ⟨1, "1", 2, 2, 256, 256, 0, (0, 1), (0, 1), 0, 1720320, 1000⟩
 example : isQuadTree [tm0, tm1] = none := by decide
 example : isQuadTree [tm0, { tm1 with mw := 3, mh := 3 }] = some 10 := by decide
 example : isQuadTree [tm0, { tm1 with idText := "x" }] = some 3 := by decide
+-- F14: ids that do not start at 0; F15: a first matrix of 2 x 2 tiles, a tile width that is not a power of two
+example : isQuadTree [{ tm1 with mw := 1, mh := 1 }] = some 6 := by decide
+example : isQuadTree [{ tm0 with mw := 2, mh := 2 }, { tm1 with mw := 4, mh := 4 }] = some 14 := by decide
+example : isQuadTree [{ tm0 with tw := 300, th := 300 }] = some 12 := by decide
 
 end Texel.C14
